@@ -388,7 +388,7 @@ func planFor(prop string) *PropPlan {
 		p.Modes = []Mode{seqMode(prop, 200, 6000), {Name: "corrupt", Quick: 120, Deep: 4000,
 			Run:    func(bin string, seed uint64) *RunReport { return runCorruptGenerated(bin, seed, thoroughTier) },
 			Replay: ReplayScenario}}
-		p.Rule = "(a) seeded valid histories whose log is then damaged by one of 31 storage-fault kinds (bit flip, truncation anywhere, duplicated/swapped/dropped lines, conflict markers, junk, unknown event types, wrong field types, bad timestamps, duplicate creates, binary, NULs, BOM, CRLF, scalars, deep nesting, 64 KB and >10 MB lines, invalid UTF-8, semantic damage such as self/cyclic links) at a seeded position; against each damaged log 26 commands (all reads in JSON and human form, every mutation) run in the simulator: termination (watchdog), exit 0/1, no panic/signal, stderr explains, file:line named for non-JSON lines, reads byte-identical when repeated in a second process and free of mutating system calls, successful mutations only extend the event list; (b) seeded sequential histories with read purity, repeat-read determinism and history-prefix checks on valid logs; non-trivial = at least one command judged on a damaged log or one mutation in effect; distinct = distinct trace digests"
+		p.Rule = "(a) seeded valid histories whose log is then damaged by one or two of 34 storage-fault kinds (bit flip, truncation anywhere, duplicated/swapped/dropped lines, conflict markers, junk, unknown event types, wrong field types, bad timestamps, duplicate creates, binary, NULs, BOM, CRLF, scalars, deep nesting, 64 KB and >10 MB lines, invalid UTF-8, semantic damage such as self/cyclic links) at a seeded position; against each damaged log 26 commands (all reads in JSON and human form, every mutation) run in the simulator: termination (watchdog), exit 0/1, no panic/signal, stderr explains, file:line named for non-JSON lines, reads byte-identical when repeated in a second process and free of mutating system calls, successful mutations only extend the event list; (b) seeded sequential histories with read purity, repeat-read determinism and history-prefix checks on valid logs; non-trivial = at least one command judged on a damaged log or one mutation in effect; distinct = distinct trace digests"
 	case "C18":
 		p.Modes = []Mode{{Name: "layout", Quick: 300, Deep: 9000,
 			Run:    func(bin string, seed uint64) *RunReport { return runLayoutGenerated(bin, seed) },
